@@ -45,7 +45,7 @@ CHECKS = {
         rule="(a) generated packets of the C01 domain, each encoded 4 times (Go randomises map iteration per call); (b) option sets of 2..6 options: ALL permutations of the same updates "
              "(UpdateOption / WithGeneric modifier / add-delete-re-add styles interleaved), 7..12 options: 200 sampled orders. Shape = sorted code classes + split pattern (+ permutation size); "
              "non-trivial iff >= 3 options or option 82 present or a value > 255 bytes.",
-        technique="wire-format validator and independent reference decoder applied to every encoding produced by the real encoder; byte-equality monitor across repeated encodings and all construction orders; equal-contents twin with spare-capacity slices must encode to identical bytes",
+        technique="wire-format validator and independent reference decoder applied to every encoding produced by the real encoder; byte-equality monitor across repeated encodings and all construction orders; equal-contents twin with spare-capacity slices must encode to identical bytes; packets re-encoded after their owner changed them, packets decoded from non-canonical bytes, earlier encodings held across the re-encode; the same monitor from 16 goroutines (plain and under the race detector)",
         level_text="Every encoding produced is checked by a validator sharing no code with the library (length floor, cookie, ascending order with 82 last, adjacency and 255-byte splits, "
                    "single End, zero padding) and re-read by the reference decoder against the generator's record; equal contents must give identical bytes over all enumerated construction orders.",
         level_note="Trusts harness/ref4.Validate and ref4.Decode.",
@@ -217,7 +217,7 @@ CHECKS = {
              "every exported constructor with caller-owned argument slices (rendered as an extra observable). Operations: every reflectively reachable exported non-mutating method (ToBytes, String, Summary, accessors, "
              "with synthesised arguments) + builders/helpers. Orders: forward, reverse, each call twice in a row, 2 (quick) / 5 (thorough) seeded permutations, each on a FRESH identical copy; for operation sets <= 40 the "
              "reference is each operation evaluated first on its own pristine copy, and for sets <= 12 ALL sequences of <= 3 calls are followed by a full comparison. Shape = subject kind + size class.",
-        technique="order-differential purity monitor over fresh identical copies of each value (pristine per-operation references for small operation sets, exhaustive sequences of <= 3 calls), plus a reader-writes detector: two goroutines running the same read-only calls under the Go race detector",
+        technique="order-differential purity monitor over fresh identical copies of each value (pristine per-operation references for small operation sets, exhaustive sequences of <= 3 calls), plus a reader-writes detector: two goroutines running the same read-only calls under the Go race detector; encoding and printed form taken before anything else is called on one extra copy and compared after all reads; operations that are the identity on the value (restore, encode, re-edit); builders and extractors among the operations on exchange-shaped messages",
         level_text="A read-only call that changes any later result (encoding, printed form, accessor result, or the caller's own slices) makes some operation's result depend on what ran before it, which the comparison "
                    "against pristine / differently-ordered evaluations exposes; repeated calls must return equal results. Race reports name writes by 'read-only' methods and are counted as suspects (the sequential oracle decides).",
         level_note="Only API-observable state is compared (exported fields, method results). For whole messages (hundreds of operations) the reference is one forward pass, so a change masked in every tried order would be missed; "
@@ -246,7 +246,7 @@ CHECKS = {
         stages=[dict(name="sched", shards={"quick": 8, "thorough": 16}, timeout={"quick": 900, "thorough": 3600})],
         rule="full grid, both clients (real nclient4/nclient6 over a scripted PacketConn inside testing/synctest bubbles): T in {1ms,10ms,250ms,5s} (+ {3ns,7ms,100ms,1s,64s} thorough) x n in {-1,0,1..6} x request size "
              "variants x 3 destinations x caller context with/without a far deadline x {silence | response accepted in try k < n at offset {start, middle, last ns} of that try}. Shape = the scenario tuple; non-trivial iff n != 1 or a response is accepted.",
-        technique="virtual-time execution (testing/synctest) of the real clients against a scripted PacketConn that records (virtual instant, destination, bytes) of every WriteTo; exact-instant oracle; sequences of calls on one client (also re-submitting one request object edited in place)",
+        technique="virtual-time execution (testing/synctest) of the real clients against a scripted PacketConn that records (virtual instant, destination, bytes) of every WriteTo; exact-instant oracle; sequences of calls on one client (also re-submitting one request object edited in place); read faults, failing transmissions, every negative try count observed for 13 transmissions, requests of every message kind, a matcher with a memory, responses of exactly 1500 octets",
         level_text="With no acceptable response: exactly n transmissions at offsets T*(2^k-1), each byte-identical to request.ToBytes() taken before the call, to the requested destination, and the no-response error at exactly "
                    "T*(2^n-1); n = -1: the first 10 transmissions on schedule, then cancellation yields ctx.Err(); a response accepted in try k returns at that very instant and no transmission follows during the next 4*T*2^n.",
         level_note="Instants are exact because time is virtual (synctest); a blocked goroutine left in the bubble or a deadlock fails the scenario. Trusts testing/synctest of go1.26.8.",
@@ -263,7 +263,7 @@ CHECKS = {
              "budget; burst of bufferCap+3 rejected datagrams at ta; mixture of rejected/wrong-xid/undecodable/empty datagrams; rejected stream + acceptable response} x event {none; ctx cancel, ctx deadline, Close, Close twice at "
              "instant tc} with ta, tc on {1ns, T/3, T-1ns, T+1ns, 2.5T, budget-1ns, budget+T} (quick: a deterministic third of the traffic x event products). "
              "(stress, real time, -race) histories of 8 caller goroutines + a feeder + Close racing them, jitter at conn and cancel.gap hook points. Shape = scenario tuple with instants classed {try0, later, after} / order hash of the history.",
-        technique="virtual-time execution (testing/synctest) of the real clients with exact return-instant oracle and bubble-exit goroutine check; real-time -race stress histories with completion/leak checker; follow-up call per scenario, conn.Close errors, failing writes with bursts routed meanwhile, slow-matcher bursts",
+        technique="virtual-time execution (testing/synctest) of the real clients with exact return-instant oracle and bubble-exit goroutine check; real-time -race stress histories with completion/leak checker; follow-up call per scenario, conn.Close errors, failing writes with bursts routed meanwhile, slow-matcher bursts; read faults while the client is open, a call made (or Close called) while another call's write is parked, write deadlines honoured by the scripted connection, responses checked for completeness",
         level_text="Grid: the call returns exactly at min(arrival of an acceptable response, context end, Close, T*(2^n-1)) with the matching result (response / ctx.Err() / no-response error), never later; an immediate "
                    "second call with the same transaction id is not refused; Close and a second Close return nil; the synctest bubble only exits when every client goroutine has finished (a deadlock is reported). "
                    "Stress: every call returns, errors are from the allowed set, no (nil, nil), no client goroutine survives Close, zero race reports.",
@@ -299,7 +299,7 @@ CHECKS = {
              "wrong-xid ACK, undecodable, silence}, each with a delay from {0,1,30,99,101,150,250} ms, ACK address possibly different from the offered one, broadcast flag on/off; DHCPv6: to SOLICIT -> {ADVERTISE, wrong-xid "
              "ADVERTISE, REPLY, wrong-xid REPLY, undecodable, ADVERTISE without server id, relay-typed, silence}, to REQUEST -> {REPLY, wrong-xid REPLY, ADVERTISE with the REQUEST's xid, undecodable, silence}, Solicit+Request and "
              "RapidSolicit. ALL tables with <= 2 servers and one reaction per phase are enumerated; the rest is seeded. Shape = outcome class + reaction table; non-trivial iff at least one server reacts.",
-        technique="virtual-time execution of the real clients against scripted servers; every client transmission is decoded by the independent reference decoders and the result (Lease / ErrNak / message / error) is classified against the exchange rules using unique nonces",
+        technique="virtual-time execution of the real clients against scripted servers; every client transmission is decoded by the independent reference decoders and the result (Lease / ErrNak / message / error) is classified against the exchange rules using unique nonces; every datagram must be taken off the wire while the client is open; lease contents compared with an independent decoding of the datagrams; no-response failures must take the whole schedule",
         level_text="DHCPv4: every transmission carries the client's hardware address; the REQUEST carries the selected offer's yiaddr as option 50, its server id as option 54 and its xid; the exchange is completed only by the first "
                    "ACK/NAK of that transaction bearing that server id delivered while the call waited (ACK => Lease{that Offer, that ACK}; NAK => ErrNak with that NAK; anything else ignored); renewal REQUEST: ciaddr = leased "
                    "address, broadcast flag clear, no option 50/54, same completion rule; exactly one RELEASE for the leased address sent to the lease's server id, port 67. DHCPv6: ADVERTISE/REPLY paired by xid, REQUEST carries "
@@ -317,7 +317,7 @@ CHECKS = {
              "truncated, bad-cookie, End-less, undecodable, short-relay and empty datagrams, from senders with an address, with a nil address, with 0.0.0.0 (4- and 16-byte forms), zone-qualified link-local; handlers that return "
              "at once, outlive the next k reads (k up to 20) or run until the end; the sequence ends with a scripted read error or Close() at a seeded position. Each valid datagram carries a unique nonce. "
              "Shape = (server, stop kind, #datagrams, sequence of classes); non-trivial iff it mixes decodable and undecodable datagrams or a handler outlives a read.",
-        technique="offline conservation checker with unique ids over handler-invocation logs recorded behind a scripted PacketConn (entry/exit message snapshots vs an independent decoding of a pristine copy), under the Go race detector with a goroutine-leak probe",
+        technique="offline conservation checker with unique ids over handler-invocation logs recorded behind a scripted PacketConn (entry/exit message snapshots vs an independent decoding of a pristine copy), under the Go race detector with a goroutine-leak probe; handler installed through the exported field, senders of every address kind (and non-UDP ones), datagrams up to exactly the read size, real loopback sockets",
         level_text="Multiset of handler nonces = multiset of decodable datagrams read before the stop (each exactly once, none for undecodable ones); the handler's message equals the reference decoding of a pristine copy "
                    "of the datagram at entry and still at exit (independent of later datagrams and of buffer reuse); peer = sender (DHCPv4: 255.255.255.255 with the sender's port when the sender has no address); Serve returns "
                    "only after the scripted read error (with that error) or Close; no Serve goroutine survives; zero race reports.",
